@@ -234,11 +234,17 @@ func c10WriteOrder(c *Check, a *Anchors) {
 		feeds := false
 		for _, s := range r.Body.List {
 			inspectBody(s, func(nd ast.Node) bool {
-				if call, ok := nd.(*ast.CallExpr); ok {
+				if call, ok := nd.(*ast.CallExpr); ok && len(call.Args) == 2 {
+					// a range function: a func-typed variable, or a method of the resolver object, taking (name, variable)
+					isRange := false
 					if v := varOf(info, call.Fun); v != nil {
-						if _, isSig := v.Type().Underlying().(*types.Signature); isSig && len(call.Args) == 2 && (unconditionalIn(r.Body.List, call) || condOnlyErr(r.Body.List, call)) {
-							feeds = true
-						}
+						_, isRange = v.Type().Underlying().(*types.Signature)
+					} else if fn, ok := callee(info, call).(*types.Func); ok && fn.Pkg() != nil && fn.Pkg().Path() == PkgTask {
+						sig := fn.Type().(*types.Signature)
+						isRange = sig.Params().Len() == 2 && isNamed(sig.Params().At(1).Type(), PkgAst, "Var") && sig.Results().Len() == 1
+					}
+					if isRange && (unconditionalIn(r.Body.List, call) || condOnlyErr(r.Body.List, call)) {
+						feeds = true
 					}
 				}
 				return true
@@ -268,11 +274,57 @@ func c10WriteOrder(c *Check, a *Anchors) {
 		lit    *FuncBody
 		scope  *FuncBody
 		result *types.Var
+		isRes  func(*types.Info, ast.Expr) bool // the expression denotes the result set (a variable, or a field of the method's receiver)
+	}
+	byVar := func(v *types.Var) func(*types.Info, ast.Expr) bool {
+		return func(inf *types.Info, e ast.Expr) bool { return v != nil && varOf(inf, e) == v }
 	}
 	var rls []rangeLit
 	for _, lit := range allLits(fb) {
-		rls = append(rls, rangeLit{lit, fb, result})
+		rls = append(rls, rangeLit{lit, fb, result, byVar(result)})
 	}
+	// the range function as a method of a small struct of the package that carries the result set in a field
+	// (&varResolver{result: result, ...}).resolve
+	inspectBody(fb.Body, func(nd ast.Node) bool {
+		cl, ok := nd.(*ast.CompositeLit)
+		if !ok {
+			return true
+		}
+		tv, ok := info.Types[cl]
+		if !ok {
+			return true
+		}
+		named := namedOf(tv.Type)
+		if named == nil || named.Obj().Pkg() == nil || named.Obj().Pkg().Path() != PkgTask {
+			return true
+		}
+		field := ""
+		for _, el := range cl.Elts {
+			if kv, ok := el.(*ast.KeyValueExpr); ok && varOf(info, kv.Value) == result && result != nil {
+				if id, ok := kv.Key.(*ast.Ident); ok {
+					field = id.Name
+				}
+			}
+		}
+		if field == "" {
+			return true
+		}
+		for _, m := range c.P.BodiesIn(PkgTask) {
+			if m.Decl == nil || m.Decl.Recv == nil || recvOf(m) != named.Obj().Name() {
+				continue
+			}
+			seen := false
+			for _, r := range rls {
+				if r.lit == m {
+					seen = true
+				}
+			}
+			if !seen {
+				rls = append(rls, rangeLit{m, m, nil, recvFieldIs(m, field)})
+			}
+		}
+		return true
+	})
 	for _, call := range callsIn(fb, true) {
 		fn, ok := callee(info, call).(*types.Func)
 		if !ok {
@@ -296,7 +348,7 @@ func c10WriteOrder(c *Check, a *Anchors) {
 						if !seen {
 							c.Fn(h)
 							for _, lit := range allLits(h) {
-								rls = append(rls, rangeLit{lit, h, pv})
+								rls = append(rls, rangeLit{lit, h, pv, byVar(pv)})
 							}
 						}
 					}
@@ -307,6 +359,8 @@ func c10WriteOrder(c *Check, a *Anchors) {
 	}
 	for _, rl := range rls {
 		lit, result, fb := rl.lit, rl.result, rl.scope
+		_ = result
+		info := lit.Info()
 		if lit.Type.Params == nil || lit.Type.Params.NumFields() != 2 || lit.Type.Results == nil || lit.Type.Results.NumFields() != 1 {
 			continue
 		}
@@ -322,7 +376,7 @@ func c10WriteOrder(c *Check, a *Anchors) {
 				if d := singleDef(info, fb.Body, hv); d != nil {
 					if hl, ok := ast.Unparen(d).(*ast.FuncLit); ok {
 						for _, hc := range callsIn(c.P.LitBody(hl), false) {
-							if hs, ok := ast.Unparen(hc.Fun).(*ast.SelectorExpr); ok && isFunc(callee(info, hc), PkgAst, "Vars", "Set") && varOf(info, hs.X) == result {
+							if hs, ok := ast.Unparen(hc.Fun).(*ast.SelectorExpr); ok && isFunc(callee(info, hc), PkgAst, "Vars", "Set") && rl.isRes(info, hs.X) {
 								return "set"
 							}
 						}
@@ -330,9 +384,9 @@ func c10WriteOrder(c *Check, a *Anchors) {
 				}
 			}
 			switch {
-			case isFunc(obj, PkgAst, "Vars", "Set") && sel != nil && varOf(info, sel.X) == result:
+			case isFunc(obj, PkgAst, "Vars", "Set") && sel != nil && rl.isRes(info, sel.X):
 				return "set"
-			case isFunc(obj, PkgAst, "Vars", "Get") && sel != nil && varOf(info, sel.X) == result:
+			case isFunc(obj, PkgAst, "Vars", "Get") && sel != nil && rl.isRes(info, sel.X):
 				return "get"
 			case isFunc(obj, PkgTemplater, "Cache", "ResetCache"):
 				return "reset"
@@ -772,8 +826,40 @@ func c10PhaseSources(c *Check, a *Anchors) {
 		}
 		n++
 		arg := call.Args[2]
-		fromParam := fieldSel(info, arg, PkgAst, "Taskfile", "Vars") && rootVar(info, arg) == param && param != nil
-		c.Decide(fromParam, "phase-sources", "included-taskfile-vars@"+fnDisplay(tm), call.Pos(), "Tasks.Merge(..., <included Taskfile>.Vars)",
+		// the argument is a variable-set field of the INCLUDED Taskfile (the parameter) — directly, or a local assigned from such
+		// fields only. A field that Taskfile.Merge merges other files into (`t1.<F>.Merge(...)`) holds, for a Taskfile that has
+		// includes of its own, the variables of those deeper files as well: at least one of the fields the argument can come
+		// from must be one that is never merged into (a snapshot of what the file itself declares), and it must have the last word
+		mergedInto := map[string]bool{}
+		for _, mc := range callsIn(tm, false) {
+			if fn, ok := callee(info, mc).(*types.Func); ok && (fn.Name() == "Merge" || fn.Name() == "Set") {
+				if sel, ok := ast.Unparen(mc.Fun).(*ast.SelectorExpr); ok {
+					if fs, ok := ast.Unparen(sel.X).(*ast.SelectorExpr); ok && varOf(info, fs.X) == recv && recv != nil {
+						mergedInto[fs.Sel.Name] = true
+					}
+				}
+			}
+		}
+		var sources []ast.Expr
+		if v := varOf(info, arg); v != nil && !v.IsField() {
+			sources = defsOf(info, tm.Body, v)
+		} else {
+			sources = []ast.Expr{arg}
+		}
+		fromParam, snapshot, lastIsSnapshot := len(sources) > 0 && param != nil, false, false
+		for _, src := range sources {
+			sel, ok := ast.Unparen(src).(*ast.SelectorExpr)
+			if !ok || varOf(info, sel.X) != param || !isNamed(typeOf(info, sel), PkgAst, "Vars") {
+				fromParam = false
+				continue
+			}
+			lastIsSnapshot = !mergedInto[sel.Sel.Name]
+			if lastIsSnapshot {
+				snapshot = true
+			}
+		}
+		c.Decide(fromParam && snapshot && lastIsSnapshot, "phase-sources", "included-taskfile-vars@"+fnDisplay(tm), call.Pos(), "Tasks.Merge(..., <what the included Taskfile itself declares>)",
+			fmt.Sprintf("(from the included Taskfile: %v; from a variable set that no deeper include is merged into: %v) ", fromParam, snapshot)+
 			fmt.Sprintf("Taskfile.Merge passes `%s` as the included Taskfile's variables (receiver: %v): the parent's merged globals are re-applied above the include statement's vars, so a global variable beats `includes: {x: {vars: ...}}`", exprStr(arg), rootVar(info, arg) == recv))
 	}
 	c.Floor("phase-sources", n, 1)
